@@ -369,6 +369,10 @@ func (fx *FnCtx) specIdent(env *Env, name string) Val {
 	if v, ok := env.named[name]; ok {
 		return v
 	}
+	if cv := fx.cellByName(name); cv != nil {
+		v, _ := fx.cellRead(env.heap, cv)
+		return v
+	}
 	// package-level object
 	if o := fx.pkg.Types.Scope().Lookup(name); o != nil {
 		switch o := o.(type) {
